@@ -149,6 +149,8 @@ pub struct Gen<'a> {
     dyn_ids: Vec<u32>,
     /// this configuration deliberately contains out-of-range numbers
     out_of_range: bool,
+    /// a number is out of range with probability 1/oor_den when `out_of_range`
+    oor_den: u64,
 }
 
 impl<'a> Gen<'a> {
@@ -162,9 +164,15 @@ impl<'a> Gen<'a> {
             vkeys_defined: 0,
             dyn_ids: vec![1, 2],
             out_of_range: false,
+            oor_den: 8,
         }
     }
 
+    /// make every written number out of range with probability 1/2 (systematic near-invalid cases)
+    pub fn force_out_of_range(&mut self) {
+        self.out_of_range = true;
+        self.oor_den = 2;
+    }
     pub fn preset_vkeys_defined(&mut self, n: usize) {
         self.vkeys_defined = n;
     }
@@ -177,7 +185,7 @@ impl<'a> Gen<'a> {
     }
 
     pub fn timeout(&mut self) -> u64 {
-        let t = if self.out_of_range && self.rng.chance(1, 8) {
+        let t = if self.out_of_range && self.rng.chance(1, self.oor_den) {
             // out-of-range on purpose: rejected by the parser today; if a range check is ever
             // relaxed the run-time code is exercised with the value
             0
@@ -232,14 +240,14 @@ impl<'a> Gen<'a> {
 
     /// key-history / key-timing / input-history recency (1-8; occasionally out of range on purpose)
     fn recency(&mut self) -> usize {
-        if self.out_of_range && self.rng.chance(1, 4) {
+        if self.out_of_range && self.rng.chance(1, self.oor_den.min(4)) {
             *self.rng.pick(&[0usize, 9, 255])
         } else {
             1 + self.rng.usize(8)
         }
     }
     fn distance(&mut self, pool: &[u32]) -> u32 {
-        if self.out_of_range && self.rng.chance(1, 4) {
+        if self.out_of_range && self.rng.chance(1, self.oor_den.min(4)) {
             *self.rng.pick(&[0u32, 30001, 65535])
         } else {
             *self.rng.pick(pool)
